@@ -846,9 +846,17 @@ class Interp:
         for k, v in rd.rel.items():
             lim = REL_LIMIT.get(k, INF)
             if isinstance(v, IntV) and (abs(v.lo) > lim or abs(v.hi) > lim):
-                return [(st, self.raised(
-                    "datetime-overflow", "OverflowError", node,
-                    "{}={} added to a datetime is unbounded".format(k, v)))]
+                bad = self.raised("datetime-overflow", "OverflowError", node,
+                                  "{}={} added to a datetime is unbounded".format(k, v))
+                if min(abs(v.lo), abs(v.hi)) > lim and (v.lo > 0 or v.hi < 0):
+                    return [(st, bad)]
+                # may overflow or not: both outcomes
+                s2 = st.fork()
+                self.tick()
+                rel2 = dict(rd.rel)
+                rel2[k] = IntV(max(v.lo, -lim), min(v.hi, lim), v.sym)
+                ok = self.dt_add(st, dt, RDV(rd.abs, rel2, sym=rd.sym), node, neg)
+                return ok + [(s2, bad)]
         for k, v in rd.abs.items():
             if k in DT_RANGES and isinstance(v, IntV) and k != "day":
                 lo, hi = DT_RANGES[k]
